@@ -122,17 +122,13 @@ def insOf : Option UtxoEntry → List (Nat × Nat)
 
 structure UtxoRel (cfg : Cfg) (u u₀ : List (OutPoint × UtxoEntry)) : Prop where
   regular : (u.filter (fun p => regKey p.1)).map (stripKV cfg) = u₀.filter (fun p => regKey p.1)
-  null : insOf (AL.get u OutPoint.null) = insOf (AL.get u₀ OutPoint.null)
-  unbound : insOf (AL.get u OutPoint.unbound) = insOf (AL.get u₀ OutPoint.unbound)
+  special : ∀ k : OutPoint, k.isSpecial = true → insOf (AL.get u k) = insOf (AL.get u₀ k)
 
 theorem regKey_of_txid {op : OutPoint} (h : op.txid ≠ 0) : regKey op = true := by
   simp [regKey, OutPoint.isSpecial, h]
 
-theorem ne_null_of_reg {op : OutPoint} (h : regKey op = true) : op ≠ OutPoint.null := by
-  intro e; subst e; simp [regKey, OutPoint.isSpecial, OutPoint.null] at h
-
-theorem ne_unbound_of_reg {op : OutPoint} (h : regKey op = true) : op ≠ OutPoint.unbound := by
-  intro e; subst e; simp [regKey, OutPoint.isSpecial, OutPoint.unbound] at h
+theorem ne_of_reg_special {op k : OutPoint} (h : regKey op = true) (hk : k.isSpecial = true) : op ≠ k := by
+  intro e; subst e; simp [regKey, hk] at h
 
 theorem UtxoRel.get_reg {cfg : Cfg} {u u₀ : List (OutPoint × UtxoEntry)} (R : UtxoRel cfg u u₀) (op : OutPoint)
     (h : regKey op = true) : AL.get u₀ op = (AL.get u op).map (stripUtxo cfg) := by
@@ -141,19 +137,21 @@ theorem UtxoRel.get_reg {cfg : Cfg} {u u₀ : List (OutPoint × UtxoEntry)} (R :
 
 theorem UtxoRel.erase_reg {cfg : Cfg} {u u₀ : List (OutPoint × UtxoEntry)} (R : UtxoRel cfg u u₀) (op : OutPoint)
     (h : regKey op = true) : UtxoRel cfg (AL.erase u op) (AL.erase u₀ op) := by
-  refine ⟨?_, ?_, ?_⟩
+  refine ⟨?_, ?_⟩
   · rw [← AL.erase_filterk regKey u op h, ← AL.erase_filterk regKey u₀ op h, ← R.regular]
     exact (AL.erase_mapv (stripUtxo cfg) _ op).symm
-  · rw [AL.get_erase_ne u (ne_null_of_reg h), AL.get_erase_ne u₀ (ne_null_of_reg h)]; exact R.null
-  · rw [AL.get_erase_ne u (ne_unbound_of_reg h), AL.get_erase_ne u₀ (ne_unbound_of_reg h)]; exact R.unbound
+  · intro k hk
+    rw [AL.get_erase_ne u (ne_of_reg_special h hk), AL.get_erase_ne u₀ (ne_of_reg_special h hk)]
+    exact R.special k hk
 
 theorem UtxoRel.set_reg {cfg : Cfg} {u u₀ : List (OutPoint × UtxoEntry)} (R : UtxoRel cfg u u₀) (op : OutPoint)
     (e : UtxoEntry) (h : regKey op = true) : UtxoRel cfg (AL.set u op e) (AL.set u₀ op (stripUtxo cfg e)) := by
-  refine ⟨?_, ?_, ?_⟩
+  refine ⟨?_, ?_⟩
   · rw [← AL.set_filterk regKey u op e h, ← AL.set_filterk regKey u₀ op _ h, ← R.regular]
     exact (AL.set_mapv (stripUtxo cfg) _ op e).symm
-  · rw [AL.get_set_ne u e (ne_null_of_reg h), AL.get_set_ne u₀ _ (ne_null_of_reg h)]; exact R.null
-  · rw [AL.get_set_ne u e (ne_unbound_of_reg h), AL.get_set_ne u₀ _ (ne_unbound_of_reg h)]; exact R.unbound
+  · intro k hk
+    rw [AL.get_set_ne u e (ne_of_reg_special h hk), AL.get_set_ne u₀ _ (ne_of_reg_special h hk)]
+    exact R.special k hk
 
 /-! ### the block context of the base run -/
 
